@@ -28,3 +28,40 @@ Theorem C13_hash_borrow :
     newtype_hash hash_inner stored = hash_inner stored.
 Proof. exact @hash_eq_borrowed. Qed.
 Print Assumptions C13_hash_borrow.
+
+(* Ord of a non-float newtype is the inner type's lawful total order: it always answers (cmp
+   cannot panic), is reflexive and transitive, and partial_cmp says Equal exactly when == holds *)
+Definition C13_same_shape (a b : value) : Prop :=
+  match a, b with VI _, VI _ | VS _, VS _ | VL _, VL _ => True | _, _ => False end.
+
+Theorem C13_cmp_total :
+  forall (fam : family) (a b : value),
+    (forall is64, fam <> FFloat is64) -> C13_same_shape a b ->
+    exists c, value_pcmp fam a b = Some c /\ value_cmp fam a b = CmpOk c.
+Proof. exact value_pcmp_total. Qed.
+Print Assumptions C13_cmp_total.
+
+Theorem C13_cmp_refl :
+  forall (fam : family) (a : value),
+    (forall is64, fam <> FFloat is64) -> C13_same_shape a a ->
+    value_pcmp fam a a = Some Eq.
+Proof. exact value_pcmp_refl. Qed.
+Print Assumptions C13_cmp_refl.
+
+Theorem C13_cmp_lt_trans :
+  forall (fam : family) (a b d : value),
+    (forall is64, fam <> FFloat is64) ->
+    value_pcmp fam a b = Some Lt -> value_pcmp fam b d = Some Lt -> value_pcmp fam a d = Some Lt.
+Proof. exact value_pcmp_lt_trans. Qed.
+Print Assumptions C13_cmp_lt_trans.
+
+Theorem C13_partial_cmp_agrees_with_eq :
+  forall (fam : family) (a b : value),
+    value_pcmp fam a b = Some Eq <-> value_eq fam a b = true.
+Proof. exact value_pcmp_eq_consistent. Qed.
+Print Assumptions C13_partial_cmp_agrees_with_eq.
+
+(* non-vacuity: two strings, a proper prefix sorts first *)
+Example C13_cmp_example :
+  value_pcmp FStr (VS [97%N]) (VS [97%N; 98%N]) = Some Lt /\ C13_same_shape (VS [97%N]) (VS [97%N; 98%N]).
+Proof. split; [vm_compute; reflexivity | exact I]. Qed.
